@@ -69,6 +69,11 @@ def ob_parse_render(name, tindex, positions):
             continue
         npaths += len(paths)
         bad = None
+        # reachability witness: with the original character the string is one the hasher made, so some path must accept it
+        if not any(p.exc is None and p.result[0] == "accepted" and check(p.cond(), ch == ord(t[pos]))[0] == "sat" for p in paths):
+            results.append(inconclusive("vacuous: the unmodified hash is not accepted on any path at position %d (a model or stub "
+                                        "rejects everything)" % pos, name="%s[#%d,@%d]" % (name, tindex, pos)))
+            continue
         for p in paths:
             if p.exc is not None:
                 if isinstance(p.exc, (AssertionError, IndexError, KeyError, AttributeError)):
